@@ -60,14 +60,40 @@ func runC19(r *rt.Run, tier string) {
 	srcs := make([]*c19Src, n)
 	var allBins []string
 	for i := range srcs {
-		s := &c19Src{Name: fmt.Sprintf("src%c%d", 'a'+i, i)}
+		srcs[i] = &c19Src{Name: fmt.Sprintf("src%c%d", 'a'+i, i)}
+	}
+	takenBin := map[string]bool{}
+	for i, s := range srcs {
 		for j, nb := 0, t.Range(1, 4, "c19.nbins"); j < nb; j++ {
-			s.Bins = append(s.Bins, fmt.Sprintf("%s-bin%d", s.Name, j))
+			name := fmt.Sprintf("%s-bin%d", s.Name, j)
+			// binary package names live in their own name space: a binary may be
+			// called like its own source (very common) or like ANOTHER source of the
+			// set that does not build a binary of its own name
+			switch t.Weighted([]int{6, 1, 1}, "c19.binname") {
+			case 1:
+				name = s.Name
+			case 2:
+				name = srcs[(i+1+t.Draw(n, "c19.binname.other"))%n].Name
+				if name != s.Name {
+					r.Probe("binary-named-like-another-source")
+				}
+			}
+			if takenBin[name] {
+				name = fmt.Sprintf("%s-bin%d", s.Name, j)
+			}
+			takenBin[name] = true
+			s.Bins = append(s.Bins, name)
 		}
 		allBins = append(allBins, s.Bins...)
-		srcs[i] = s
 	}
 	external := []string{"debhelper", "libc6-dev", "dh-python"}
+	// names of sources of the set that nobody builds as a binary are external too
+	for _, s := range srcs {
+		if !takenBin[s.Name] && t.Bool(1, 3, "c19.srcname-as-external") {
+			external = append(external, s.Name)
+			r.Probe("dependency-named-like-a-source-nobody-builds")
+		}
+	}
 	buildArch := archStock[t.Draw(3, "c19.arch")] // concrete: amd64, i386, arm64
 	for i, s := range srcs {
 		// bias towards binaries of earlier sources so that many graphs are acyclic
@@ -228,6 +254,45 @@ func runC19(r *rt.Run, tier string) {
 	}
 	c19Check(r, "order/first-architecture-again", srcs, edges, out3, err3, buildArch.Text)
 	r.Probe("ordered-for-two-architectures")
+
+	// several callers order the same parsed sources at the same time, for the
+	// same and for another architecture, interleaved at the instrumented loop
+	// heads and function entries: each gets the answer of its own architecture
+	if t.Bool(1, 3, "c19.concurrent") {
+		sites := map[int]bool{}
+		sub := t.Sub("c19.sites")
+		for i := 0; i < rt.TotalSites(); i++ {
+			if sub.Intn(3) == 0 {
+				sites[i] = true
+			}
+		}
+		r.SetYieldSites(sites)
+		r.Sticky = t.Draw(3, "sched.sticky")
+		type job struct {
+			arch *dependency.Arch
+			text string
+			out  []control.DSC
+			err  error
+			task *rt.Task
+		}
+		jobs := []*job{{arch: arch, text: buildArch.Text}, {arch: arch2, text: other.Text}, {arch: arch, text: buildArch.Text}}
+		for i, j := range jobs[:2+t.Draw(2, "c19.concurrent-n")] {
+			j := j
+			j.task = r.Go(fmt.Sprintf("O%d", i), func() { j.out, j.err = control.OrderDSCForBuild(dscs, *j.arch) })
+		}
+		r.Sched()
+		r.SetYieldSites(nil)
+		r.Probe("ordered-by-concurrent-callers")
+		for _, j := range jobs {
+			if j.task == nil {
+				continue
+			}
+			if taskTrouble(r, "C19", "OrderDSCForBuild/concurrent", j.task) {
+				return
+			}
+			c19Check(r, "order/concurrent-callers-on-same-objects", srcs, edgesFor(j.text, false), j.out, j.err, j.text)
+		}
+	}
 }
 
 func archIndex(text string) int {
@@ -308,7 +373,7 @@ func hasCycle(n int, edges map[[2]int]bool) bool {
 func init() {
 	register(&Prop{
 		ID: "C19", Level: "exploration", Variant: "I", Design: "DESIGN.md §5 C19",
-		Rule:      "Each run draws 1..12 sources with 1..4 binaries each (Binary field single-line or folded), build-dependencies over Build-Depends, Build-Depends-Arch and Build-Depends-Indep with alternatives, [arch]/[!arch] restrictions, substvars, external packages, self-dependencies and cycles, renders them as .dsc files onto the simulated file system in a tape-chosen arrival order, parses them back with ParseDscFile and calls OrderDSCForBuild three times for a concrete build architecture under tape-chosen map orders. An independent graph model (first applicable non-substvar alternative per relation; binary->source map) decides: error iff the graph has a cycle, otherwise a permutation with every edge forward, identical on every repetition.",
+		Rule:      "Each run draws 1..12 sources with 1..4 binaries each (Binary field single-line or folded), build-dependencies over Build-Depends, Build-Depends-Arch and Build-Depends-Indep with alternatives, [arch]/[!arch] restrictions, substvars, external packages, self-dependencies and cycles, renders them as .dsc files onto the simulated file system in a tape-chosen arrival order, parses them back with ParseDscFile and calls OrderDSCForBuild three times for a concrete build architecture under tape-chosen map orders. An independent graph model (first applicable non-substvar alternative per relation; binary->source map) decides: error iff the graph has a cycle, otherwise a permutation with every edge forward, identical on every repetition. Binaries may be named like their own or like another source; source names nobody builds appear as external dependencies; the same parsed objects are then ordered for a second architecture, for the first again, and (a third of the runs) by 2..3 concurrent callers.",
 		Run:       runC19,
 		QuickRuns: 250000, QuickSecs: 40, ThoroughRuns: 2_000_000, ThoroughSecs: 900,
 		Components: map[string]interface{}{
@@ -318,5 +383,5 @@ func init() {
 		},
 		Assumptions: []string{"claimed weakly: the function under test is pure; simulation owns only the arrival order, the file reads and the map-order seam. The deciding oracle is a graph model over generated inputs", "architecture restrictions use concrete architectures only (wildcard matching belongs to the not-applicable property C06)", "every binary is built by exactly one of the given sources"},
 	})
-	propProbes["C19"] = []string{"ordered-for-two-architectures", "cyclic-graph", "acyclic-graph", "edge-through-alternative", "multi-binary-source-has-dependents"}
+	propProbes["C19"] = []string{"ordered-by-concurrent-callers", "binary-named-like-another-source", "dependency-named-like-a-source-nobody-builds", "ordered-for-two-architectures", "cyclic-graph", "acyclic-graph", "edge-through-alternative", "multi-binary-source-has-dependents"}
 }
